@@ -152,3 +152,10 @@ Proof.
   intros neg m e Hm. cbn [f6_text]. apply read_fixed_text. apply round_half_even_nonneg; [|apply pow2_pos].
   pose proof (pow2_pos e). nia.
 Qed.
+
+(* %d / WriteInt64: the text reads back as the integer *)
+Theorem int_text_reads_back : forall z, read_fixed (int_text z) = Some (z <? 0, Z.abs z, O).
+Proof.
+  intros z. pose proof (read_fixed_text (z <? 0) (Z.abs z) 0 ltac:(lia)) as H.
+  unfold fixed_text in H. cbn [Z.of_nat] in H. rewrite Z.pow_0_r, Z.div_1_r, app_nil_r_s in H. exact H.
+Qed.
